@@ -641,10 +641,10 @@ def run(rep, tier, rng):
     TR.load()
     thorough = tier == "thorough"
     cases = load_corpus()
-    cases += gen_config(rng, 6000 if thorough else 900)
-    cases += gen_all(rng, 5000 if thorough else 800)
-    cases += gen_config(rng, 2500 if thorough else 350, wild=True)
-    cases += gen_all(rng, 2500 if thorough else 350, wild=True)
+    cases += gen_config(rng, 6000 if thorough else 600)
+    cases += gen_all(rng, 5000 if thorough else 600)
+    cases += gen_config(rng, 2500 if thorough else 250, wild=True)
+    cases += gen_all(rng, 2500 if thorough else 250, wild=True)
     kept, bad = evaluate(cases, rep)
     for k in (0, len(kept) // 3, 2 * len(kept) // 3, len(kept) - 1):
         if 0 <= k < len(kept):
